@@ -18,6 +18,8 @@
     pushm <cfgToo 0|1> <hasCfg 0|1> <nblobs> {scripts as for push; the last one is the config's when hasCfg} <nsched> {k}* <nman> {..}
       (Registry.Push of a manifest with a config blob; cfgToo: the tree offers the config to the registry (F30 repaired))
       -> as push
+    pushcov / pushmcov / legacycov <same arguments as push / pushm / legacy>
+      -> branch tags of the push models (Model/RegistryCov.lean `pushTags`, `legacyTags`), space separated
     csparse <hex of a chunksums response body>   (Model/RegistryChunksums.lean `parseBody`)
       -> "<digest hex>:<start>:<end> … end=<clean|invalidDigest|missingRange|invalidRange>"
     hpull <thr> <limit|-1> <linkShortcut> <verify> <staged> <nattempts> {attempt}*   (Local.handlePull's loop; the
@@ -254,6 +256,27 @@ def handle (toks : List String) : Option String :=
       pure (match pushManifest cfgToo m ups sched man with
         | none => "bad-schedule"
         | some (tr, ok) => s!"{joinWith " " (tr.map showPushEv)} res={if ok then "ok" else "err"}")) rest
+  | "pushcov" :: rest =>
+    runTP (do
+      let ups ← listOf pUp
+      let _ ← listOf nat
+      let man ← listOf pResp
+      pure (joinWith " " (pushTags ups man))) rest
+  | "pushmcov" :: rest =>
+    runTP (do
+      let cfgToo ← pBool
+      let hasCfg ← pBool
+      let ups ← listOf pUp
+      let _ ← listOf nat
+      let man ← listOf pResp
+      let n := if hasCfg && !cfgToo then ups.length - 1 else ups.length
+      pure (joinWith " " (pushTags (ups.take n) man))) rest
+  | "legacycov" :: rest =>
+    runTP (do
+      let strict ← pBool
+      let ls ← listOf pLegacy
+      let man ← listOf pResp
+      pure (joinWith " " (legacyTags strict ls man))) rest
   | ["csparse", body] =>
     runTP (do
       let b ← hex
